@@ -5,6 +5,7 @@ A gate is described by a small tuple (its *descriptor*):
     ("C", g)                 Controlled(g)                    ("W",)     SWAP
     ("R", kind, n, phase)    rotation; n = phase*8 (int) in exact mode, None for a float phase
     ("K", bits) / ("B", bits)  Ket / Bra                      ("S", cyc8_tuple | None, value)  scalar
+    ("Q", name)              user-defined QuantumGate(name, n_qubits, array) from the CUSTOM table below
 `build` makes the discopy object the way a user would, `tok` the driver tokens (exact mode only),
 `std_io` the INDEPENDENT textbook matrix of the map in discopy's [input, output] order (transpose of
 the usual U[out][in]); nothing in `std_io` calls discopy.
@@ -70,6 +71,33 @@ def basis(bits):
     return v
 
 
+
+def _custom_table():
+    """User-defined multi-qubit gates, arrays in [input, output] order, all entries in Z[zeta_8]/2^e.
+    None of the 2- and 3-qubit ones is symmetric under reversing the order of its qubits, none is a
+    symmetric matrix, so wire order and transposition both matter for their daggers."""
+    io = {k: v.T.copy() for k, v in STD_U.items()}
+    ch = controlled_u(STD_U["H"]).T                       # controlled-H, control on the left
+    t = {}
+    t["SH"] = io["S"] @ io["H"]                           # one qubit: S then H
+    t["TX"] = io["T"] @ io["X"]                           # one qubit: T then X (not symmetric)
+    t["HCX"] = np.kron(io["H"], I2) @ io["CX"]            # H on qubit 0, then CX
+    t["CH"] = ch
+    t["CST"] = np.kron(io["S"], io["T"]) @ io["CX"] @ np.kron(I2, io["H"])
+    tof = np.eye(8, dtype=complex)
+    tof[[6, 7]] = tof[[7, 6]]                             # Toffoli: controls 0, 1, target 2
+    t["TOF"] = tof
+    t["U3"] = np.kron(np.kron(io["H"], io["S"]), I2) @ tof @ np.kron(I2, io["CX"])
+    return t
+
+
+CUSTOM = _custom_table()
+CUSTOM_NQ = {k: int(round(math.log2(v.shape[0]))) for k, v in CUSTOM.items()}
+CUSTOM1 = tuple(k for k, n in CUSTOM_NQ.items() if n == 1)
+CUSTOM2 = tuple(k for k, n in CUSTOM_NQ.items() if n == 2)
+CUSTOM3 = tuple(k for k, n in CUSTOM_NQ.items() if n == 3)
+
+
 def std_io(g):
     """Independent matrix of the descriptor, shape (2^dom, 2^cod), rows = input."""
     k = g[0]
@@ -89,6 +117,8 @@ def std_io(g):
         return basis(g[1]).reshape(-1, 1)
     if k == "S":
         return np.array([[g[2]]], dtype=complex)
+    if k == "Q":
+        return CUSTOM[g[1]].copy()
     raise KeyError(k)
 
 
@@ -110,6 +140,8 @@ def arity(g):
         return (0, len(g[1]))
     if k == "B":
         return (len(g[1]), 0)
+    if k == "Q":
+        return (CUSTOM_NQ[g[1]],) * 2
     return (0, 0)
 
 
@@ -133,6 +165,8 @@ def build(g):
         return gates.Bra(*g[1])
     if k == "S":
         return gates.scalar(g[2])
+    if k == "Q":
+        return gates.QuantumGate(g[1], CUSTOM_NQ[g[1]], CUSTOM[g[1]].reshape(-1))
     raise KeyError(k)
 
 
@@ -153,6 +187,12 @@ def tok(g):
     if k == "S":
         assert g[1] is not None
         return "S " + cyc8.scalar_tok(g[1])
+    if k == "Q":
+        flat = CUSTOM[g[1]].reshape(-1)
+        ents = [cyc8.recognise(z) for z in flat]
+        assert all(e is not None for e in ents), g
+        return "Q %s %d 0 %d %s" % (g[1], CUSTOM_NQ[g[1]], len(ents),
+                                    " ".join(cyc8.scalar_tok(e) for e in ents))
     raise KeyError(k)
 
 
@@ -172,6 +212,8 @@ def show(g):
         return "Ket(%s)" % ", ".join(str(int(b)) for b in g[1])
     if k == "B":
         return "Bra(%s)" % ", ".join(str(int(b)) for b in g[1])
+    if k == "Q":
+        return "QuantumGate(%r, %d, CUSTOM[%r])" % (g[1], CUSTOM_NQ[g[1]], g[1])
     return "scalar(%r)" % (g[2],)
 
 
@@ -188,6 +230,8 @@ def kinds(g):
         return ["Controlled"] + kinds(g[1])
     if k == "R":
         return [g[1]]
+    if k == "Q":
+        return ["QuantumGate%d" % CUSTOM_NQ[g[1]]]
     return [{"K": "Ket", "B": "Bra", "S": "scalar"}[k]]
 
 
@@ -227,8 +271,10 @@ class QGen:
 
     def gate1(self):
         r = self.rng.random()
-        if r < 0.45:
+        if r < 0.4:
             g = ("N", self.rng.choice(NAMED1))
+        elif r < 0.5:
+            g = ("Q", self.rng.choice(CUSTOM1))
         else:
             g = self.rot(self.rng.choice(ROT1))
         if self.rng.random() < 0.3:
@@ -241,8 +287,10 @@ class QGen:
             g = ("N", self.rng.choice(NAMED2))
         elif r < 0.55:
             g = self.rot(self.rng.choice(ROT2))
-        elif r < 0.65:
+        elif r < 0.62:
             g = ("W",)
+        elif r < 0.8:
+            g = ("Q", self.rng.choice(CUSTOM2))
         else:
             inner = self.gate1()
             g = ("C", inner)
@@ -262,6 +310,8 @@ class QGen:
             opts += ["g1", "g1", "g1", "bra"]
         if w >= 2:
             opts += ["g2", "g2", "g2"]
+        if w >= 3:
+            opts += ["g3"]
         if w < self.max_wires:
             opts += ["ket"] * (3 if w == 0 else 1)
         o = self.rng.choice(opts)
@@ -269,24 +319,44 @@ class QGen:
             return self.gate1()
         if o == "g2":
             return self.gate2()
+        if o == "g3":
+            g = ("Q", self.rng.choice(CUSTOM3))
+            return ("D", g) if self.rng.random() < 0.5 else g
         if o == "ket":
             return ("K", self.bits(self.rng.randint(1, min(2, self.max_wires - w))))
         if o == "bra":
             return ("B", self.bits(self.rng.randint(1, min(2, w))))
         return self.scalar()
 
-    def circuit(self, n_in=None, depth=None):
-        """Returns (n_in, layers) with layers = [(left, descriptor, right)]."""
-        w = self.rng.randint(0, self.max_wires) if n_in is None else n_in
+    def twin(self, g):
+        """A gate that discopy's `Box.__eq__` confuses (or nearly confuses) with `g` although it denotes
+        a different matrix: the dagger (same name, only the flag / the target's flag / the sign of the
+        phase differs), or the same (controlled) rotation at a phase that prints the same 3 digits."""
+        if not self.exact and self.rng.random() < 0.5:
+            base = g[1] if g[0] == "C" else g
+            if base[0] == "R":
+                near = ("R", base[1], None, base[3] + self.rng.choice((1, -1, 2)) * 1e-4 * max(1.0, abs(base[3])))
+                return ("C", near) if g[0] == "C" else near
+        return ("D", g)
+
+    def circuit(self, n_in=None, depth=None, twins=0.0, unitary=False):
+        """Returns (n_in, layers) with layers = [(left, descriptor, right)].
+        `twins`: probability that a layer is followed DIRECTLY (same wires) by a twin of its gate.
+        `unitary`: gates only (no ket / bra / scalar), at least one wire."""
+        w = self.rng.randint(1 if unitary else 0, self.max_wires) if n_in is None else n_in
         n_in = w
         depth = self.rng.randint(1, 8) if depth is None else depth
         layers = []
-        for _ in range(depth):
+        while len(layers) < depth:
             g = self.pick(w)
+            while unitary and g[0] in "KBS":
+                g = self.pick(w)
             d, c = arity(g)
             off = self.rng.randint(0, w - d)
             layers.append((off, g, w - off - d))
             w = w - d + c
+            if d == c and d > 0 and self.rng.random() < twins:
+                layers.append((off, self.twin(g), w - off - d))
         return n_in, layers
 
 
@@ -351,13 +421,15 @@ def _dag(y):
         return ("K", y[1])
     if k == "W":
         return y
+    if k == "Q":
+        return ("D", y)
     t = y[1]
     return ("S", None if t is None else (t[0], -t[3], -t[2], -t[1], t[4]), y[2].conjugate())
 
 
 def norm(g):
     """Push `.dagger()` through discopy's dagger mechanisms (gates.py:43, 225, 253, 286, 361, 529):
-    afterwards a "D" only wraps a flagged table gate S, T or Y."""
+    afterwards a "D" only wraps a flagged table gate S, T or Y or a user-defined QuantumGate."""
     k = g[0]
     if k == "D":
         return _dag(norm(g[1]))
